@@ -6,6 +6,8 @@ package main
 // functions with good and bad signatures.
 
 import (
+	dtpb "github.com/google/fhir/go/proto/google/fhir/proto/r4/core/datatypes_go_proto"
+	"github.com/verily-src/fhirpath-go/fhirpath/compopts"
 	"errors"
 	"fmt"
 	"sort"
@@ -209,6 +211,28 @@ func runC17(c *Ctx) {
 		{"Patient.name.select(%v)", "ok:[I:7,I:7]"}, {"'a7b'.indexOf(%v.toString())", "ok:[I:1]"}, {"Patient.name.family.exists($this = %f)", "ok:[B:true]"},
 		{"iif(%t, %v, 0)", "ok:[I:7]"}, {"%context.id", "ok:[F(Id)S:x7031]"}, {"%ucum", "ok:[S:x687474703a2f2f756e6974736f666d6561737572652e6f7267]"},
 	}
+	// a variable evaluates to exactly the supplied value: an element or resource is the very same one
+	// (not a copy), directly, inside a collection, and when navigated from
+	{
+		nm := &dtpb.HumanName{Family: fhir.String("Z"), Given: []*dtpb.String{fhir.String("g")}}
+		for _, tc := range []struct {
+			src  string
+			opt  fhirpath.EvaluateOption
+			want proto.Message
+		}{
+			{"%el", evalopts.EnvVariable("el", nm), nm}, {"%res", evalopts.EnvVariable("res", pat), pat}, {"%coll", evalopts.EnvVariable("coll", system.Collection{nm}), nm},
+			{"%el.family", evalopts.EnvVariable("el", nm), nm.Family}, {"%el.given", evalopts.EnvVariable("el", nm), nm.Given[0]}, {"%res.where(true)", evalopts.EnvVariable("res", pat), pat},
+		} {
+			o := safeEval(func() (system.Collection, error) { return fhirpath.MustCompile(tc.src).Evaluate(input, tc.opt) })
+			same := o.Err == nil && len(o.Coll) == 1
+			if same {
+				m, ok := o.Coll[0].(proto.Message)
+				same = ok && m == tc.want
+			}
+			c.Observe("variable identity "+tc.src, true)
+			c.Law(same, "C17/variable-identity", "a variable evaluates to exactly the supplied value (the same element, not a copy)", tc.src, canonOutcome(o, nil))
+		}
+	}
 	for _, p := range pos {
 		o := safeEval(func() (system.Collection, error) {
 			e, err := fhirpath.Compile(p.src)
@@ -288,6 +312,31 @@ func runC17(c *Ctx) {
 	c.Law(outTokens(o) == "ok:[S:x73,I:3]", "C17/custom-args", "a custom function receives its evaluated single-item arguments", "Patient.typed('s', 3)", outTokens(o))
 	o = ev("Patient.typed(3, 's')", typed, "typed")
 	c.Law(o.Err != nil && !o.Panicked, "C17/custom-arg-type", "arguments are checked against the parameter types", "Patient.typed(3, 's')", outTokens(o))
+	for _, src := range []string{"Patient.typed({}, 3)", "Patient.typed('s', {})", "Patient.typed(Patient.gender, 3)", "Patient.typed('s', Patient.name.where(false).count().where($this > 5))"} {
+		o = ev(src, typed, "typed")
+		c.Observe("custom empty argument "+src, true)
+		c.Law(o.Err != nil && !o.Panicked, "C17/custom-arg-singleton", "arguments must be single items: an empty argument is an error, the function is not skipped", src, outTokens(o))
+	}
+	// a custom function named like an experimental one, registered before WithExperimentalFuncs: if Compile
+	// accepts the options, the call reaches the custom function and its result is passed through
+	{
+		customJoin := func(in system.Collection, sep system.String) (system.Collection, error) {
+			return system.Collection{system.String("custom")}, nil
+		}
+		for _, order := range []string{"custom-first", "experimental-first"} {
+			opts := []fhirpath.CompileOption{fhirpath.WithFunction("join", customJoin), compopts.WithExperimentalFuncs()}
+			if order == "experimental-first" {
+				opts = []fhirpath.CompileOption{compopts.WithExperimentalFuncs(), fhirpath.WithFunction("join", customJoin)}
+			}
+			e, err := fhirpath.Compile("Patient.name.family.join('-')", opts...)
+			c.Observe("custom join "+order, true)
+			if err != nil {
+				continue // rejected as an existing name: allowed
+			}
+			r, err := e.Evaluate(input)
+			c.Law(err == nil && len(r) == 1 && r[0] == system.String("custom"), "C17/custom-shadowed", "a custom function that Compile accepted is the one that is called", "join registered "+order, fmt.Sprint(r, err))
+		}
+	}
 	o = ev("Patient.typed(Patient.name.family, 3)", typed, "typed")
 	c.Law(o.Err != nil && !o.Panicked, "C17/custom-arg-singleton", "arguments must be single items", "Patient.typed(Patient.name.family, 3)", outTokens(o))
 	// every parameter type x every argument type, one and two parameters: the call succeeds exactly
